@@ -820,7 +820,9 @@ func (c *HostClient) acquireConn(dialTimeout time.Duration) (cc *clientConn, inP
 		c.conns[n] = nil
 		c.conns = c.conns[:n]
 	}
+	verifPoint("acq", c, nil, cc, 0, createConn)
 	c.connsLock.Unlock()
+	verifPoint("y.acq", c, nil, nil, 0, createConn)
 
 	if cc != nil {
 		return cc, true, nil
@@ -854,6 +856,7 @@ func (c *HostClient) acquireConn(dialTimeout time.Duration) (cc *clientConn, inP
 
 		select {
 		case <-w.ready:
+			verifPoint("wake", c, w, w.conn, 0, w.err != nil)
 			return w.conn, true, w.err
 		case <-tc.C:
 			return nil, true, errs.ErrNoFreeConns
@@ -880,8 +883,10 @@ func (c *HostClient) queueForIdle(w *wantConn) {
 	if c.connsWait == nil {
 		c.connsWait = &wantConnQueue{}
 	}
+	vn := c.verifWaitLen()
 	c.connsWait.clearFront()
 	c.connsWait.pushBack(w)
+	verifPoint("enq", c, w, nil, vn+1-c.verifWaitLen(), false)
 }
 
 func (c *HostClient) dialConnFor(w *wantConn) {
@@ -958,6 +963,7 @@ func (c *HostClient) connsCleaner() {
 			}
 			c.conns = conns[:m]
 		}
+		verifPoint("reap", c, nil, nil, len(scratch), false)
 		c.connsLock.Unlock()
 
 		// Close idle connections.
@@ -972,6 +978,7 @@ func (c *HostClient) connsCleaner() {
 		if mustStop {
 			c.connsCleanerRun = false
 		}
+		verifPoint("reapchk", c, nil, nil, 0, mustStop)
 		c.connsLock.Unlock()
 		if mustStop {
 			break
@@ -982,6 +989,7 @@ func (c *HostClient) connsCleaner() {
 }
 
 func (c *HostClient) closeConn(cc *clientConn) {
+	verifPoint("close", c, nil, cc, 0, false)
 	c.decConnsCount()
 	cc.c.Close()
 	releaseClientConn(cc)
@@ -991,6 +999,7 @@ func (c *HostClient) decConnsCount() {
 	if c.MaxConnWaitTimeout <= 0 {
 		c.connsLock.Lock()
 		c.connsCount--
+		verifPoint("dec", c, nil, nil, 0, false)
 		c.connsLock.Unlock()
 		return
 	}
@@ -998,10 +1007,12 @@ func (c *HostClient) decConnsCount() {
 	c.connsLock.Lock()
 	defer c.connsLock.Unlock()
 	dialed := false
+	vn := c.verifWaitLen()
 	if q := c.connsWait; q != nil && q.len() > 0 {
 		for q.len() > 0 {
 			w := q.popFront()
 			if w.waiting() {
+				verifPoint("dec", c, w, nil, vn-c.verifWaitLen(), true)
 				go c.dialConnFor(w)
 				dialed = true
 				break
@@ -1010,6 +1021,7 @@ func (c *HostClient) decConnsCount() {
 	}
 	if !dialed {
 		c.connsCount--
+		verifPoint("dec", c, nil, nil, vn-c.verifWaitLen(), false)
 	}
 }
 
@@ -1037,6 +1049,7 @@ func (c *HostClient) releaseConn(cc *clientConn) {
 	if c.MaxConnWaitTimeout <= 0 {
 		c.connsLock.Lock()
 		c.conns = append(c.conns, cc)
+		verifPoint("rel", c, nil, cc, 0, false)
 		c.connsLock.Unlock()
 		return
 	}
@@ -1045,10 +1058,13 @@ func (c *HostClient) releaseConn(cc *clientConn) {
 	c.connsLock.Lock()
 	defer c.connsLock.Unlock()
 	delivered := false
+	var vw *wantConn
+	vn := c.verifWaitLen()
 	if q := c.connsWait; q != nil && q.len() > 0 {
 		for q.len() > 0 {
 			w := q.popFront()
 			if w.waiting() {
+				vw = w
 				delivered = w.tryDeliver(cc, nil)
 				break
 			}
@@ -1057,6 +1073,7 @@ func (c *HostClient) releaseConn(cc *clientConn) {
 	if !delivered {
 		c.conns = append(c.conns, cc)
 	}
+	verifPoint("rel", c, vw, cc, vn-c.verifWaitLen(), delivered)
 }
 
 func (c *HostClient) acquireWriter(conn network.Conn) network.Writer {
@@ -1236,6 +1253,7 @@ func (w *wantConn) tryDeliver(conn *clientConn, err error) bool {
 	defer w.mu.Unlock()
 
 	if w.conn != nil || w.err != nil {
+		verifPoint("tryd", nil, w, conn, 0, false)
 		return false
 	}
 	w.conn = conn
@@ -1243,6 +1261,7 @@ func (w *wantConn) tryDeliver(conn *clientConn, err error) bool {
 	if w.conn == nil && w.err == nil {
 		panic("hertz: internal error: misuse of tryDeliver")
 	}
+	verifPoint("tryd", nil, w, conn, 0, true)
 	close(w.ready)
 	return true
 }
@@ -1251,6 +1270,7 @@ func (w *wantConn) tryDeliver(conn *clientConn, err error) bool {
 // If a connection has been delivered already, cancel returns it with c.releaseConn.
 func (w *wantConn) cancel(c *HostClient, err error) {
 	w.mu.Lock()
+	verifPoint("cancel", nil, w, w.conn, 0, w.conn == nil && w.err == nil)
 	if w.conn == nil && w.err == nil {
 		close(w.ready) // catch misbehavior in future delivery
 	}
